@@ -3,6 +3,7 @@
 mod c07;
 mod c13;
 mod c15codec;
+mod c15json;
 mod c15stream;
 mod c16;
 mod c17;
@@ -93,6 +94,7 @@ fn main() {
                 let faults: u64 = arg(&args, "faults", 0);
                 let extreme: u64 = arg(&args, "extreme", 0);
                 let long: u64 = arg(&args, "long", 0);
+                cli::GEN_SUB.store(arg::<u64>(&args, "sub", 0) as u8, std::sync::atomic::Ordering::SeqCst);
                 cli::generate(&mut out, seed, scripts, len, wo == 1, faults == 1, extreme == 1, long == 1);
             } else {
                 for (i, (h, ops)) in read_scripts(&replay).iter().enumerate() {
@@ -113,6 +115,7 @@ fn main() {
                 let faults: u64 = arg(&args, "faults", 0);
                 let extreme: u64 = arg(&args, "extreme", 0);
                 let long: u64 = arg(&args, "long", 0);
+                cli::GEN_SUB.store(arg::<u64>(&args, "sub", 0) as u8, std::sync::atomic::Ordering::SeqCst);
                 srv::generate(&mut out, seed, scripts, len, wo == 1, faults == 1, extreme == 1, long == 1);
             } else {
                 for (i, (h, ops)) in read_scripts(&replay).iter().enumerate() {
@@ -138,6 +141,13 @@ fn main() {
                 c15codec::generate(&mut out, seed, scripts, len);
             } else {
                 c15codec::replay(&mut out, &read_scripts(&replay));
+            }
+        }
+        "c15json" => {
+            if replay.is_empty() {
+                c15json::generate(&mut out, seed, scripts, len);
+            } else {
+                c15json::replay(&mut out, &read_scripts(&replay));
             }
         }
         "c15frame" | "c15e2e" => {
